@@ -21,6 +21,10 @@ What is proved about "never silently accepts an inconsistent state":
   `residual = Σ_r χ_r·(E_r & Δ) ⊕ (x ⊕ x')·Δ ⊕ (t ⊕ t')` (unreduced 256-bit
   products), and when it accepts its outputs are the honest ones XOR
   `E_r & Δ`;
+* honest executions never abort: `C15_kos_complete` (one call), for every content
+  of the caller-provided `result` slice `C15_kos_complete_any_buffer`, and for
+  every HISTORY of calls on one pair with named result buffers
+  `C15_kos_history_never_aborts` (Model/KosBuf.lean);
 * deterministic corollaries: `C15_kos_complete`, `C15_kos_unselected_harmless`,
   `C15_kos_single_row_sound`, `C15_kos_response_sound`;
 * alterations as SETS of positions (any number of flips, response intact):
